@@ -144,14 +144,18 @@ func (ltx levelTransaction) Get(id []byte) ([]byte, error) {
 
 // View run iterator on bolt keyvalue store
 func (ltx levelTransaction) View(u func(it kvi.KVIterator) error) error {
-	it := ltx.db.NewIterator(nil, nil)
+	it := ltx.tx.NewIterator(nil, nil)
 	defer it.Release()
-	lit := levelIterator{ltx.db, it, true, nil, nil}
+	lit := levelIterator{ltx.tx, it, true, nil, nil}
 	return u(&lit)
 }
 
+type levelGetter interface {
+	Get(key []byte, ro *opt.ReadOptions) ([]byte, error)
+}
+
 type levelIterator struct {
-	db      *leveldb.DB
+	db      levelGetter
 	it      iterator.Iterator
 	forward bool
 	key     []byte
